@@ -1,18 +1,21 @@
 #!/bin/bash
 # usage: tools/eval_mutant.sh <prop> <k> [tier]
-# confirms a seeded change (tests pass, demo fails with it and passes without) and runs the property's check on it
+# confirms a seeded change (tests pass, demo fails with it and passes without) and runs the property's check on it.
+# Uses private scratch worktrees of /repo HEAD; safe to run concurrently.
 prop=$1; k=$2; tier=${3:-quick}
 cd "$(dirname "$0")/.."
 src=/tmp/mut/$prop/MUTANT$k
 [ -d seeded/$prop-$k ] && src=seeded/$prop-$k
 patch=$(readlink -f $src/patch.diff); demo=$(readlink -f $src/demo.py)
-W=/tmp/mut/eval
-if [ ! -d $W ]; then git -C /repo worktree add -q --detach $W HEAD; fi
-git -C $W checkout -q --detach $(git -C /repo rev-parse HEAD); git -C $W checkout -q -- . ; git -C $W clean -fdq
-if ! git -C $W apply "$patch" 2>/dev/null; then echo "$prop-$k PATCH-DOES-NOT-APPLY"; exit 3; fi
+mkdir -p /tmp/mut
+W=$(mktemp -d /tmp/mut/conf.XXXXXX); rmdir $W
+git -C /repo worktree add -q --detach $W HEAD || exit 3
+if ! git -C $W apply "$patch" 2>/dev/null; then
+  echo "$prop-$k PATCH-DOES-NOT-APPLY"; git -C /repo worktree remove --force $W; exit 3
+fi
 tests=$(cd $W && PYTHONPATH=$W /venv/bin/python -m pytest -q -p no:cacheprovider -x pyformlang 2>&1 | tail -1)
 (cd /tmp && PYTHONPATH=$W timeout 300 /venv/bin/python $demo >/dev/null 2>&1); dm=$?
 (cd /tmp && PYTHONPATH=/repo timeout 300 /venv/bin/python $demo >/dev/null 2>&1); do_=$?
-git -C $W checkout -q -- . ; git -C $W clean -fdq
+git -C /repo worktree remove --force $W >/dev/null 2>&1
 res=$(tools/mutcheck.sh $patch $tier $prop 2>&1 | tail -1)
 echo "$prop-$k tests=[$tests] demo_mutant=$dm demo_original=$do_ | $res" | cut -c1-420
